@@ -419,6 +419,53 @@ func init() {
 					viols = append(viols, run.Violation{Property: "C14", What: "ProjectList differs from projecting each document on its own", Witness: "projectlist-differs", Req: req, Detail: differs})
 				}
 			}
+			// a projection made of plain inclusion flags plus `_id: false/0` is valid: it must succeed and hide the _id
+			{
+				onlyIncl, hidesID := len(proj) > 1, false
+				for _, e := range proj {
+					on, isFlag := false, false
+					switch v := e.Value.(type) {
+					case bool:
+						on, isFlag = v, true
+					case int32, int64, float64:
+						on, isFlag = bsonkit.Compare(v, int64(0)) != 0, true
+					}
+					switch {
+					case !isFlag || e.Key == "" || strings.Contains(e.Key, "$"):
+						onlyIncl = false
+					case e.Key == "_id":
+						if on {
+							onlyIncl = false
+						}
+						hidesID = !on
+					case !on:
+						onlyIncl = false
+					}
+				}
+				seen := map[string]bool{}
+				for _, e := range proj {
+					if seen[e.Key] {
+						onlyIncl = false
+					}
+					seen[e.Key] = true
+					for _, o := range proj {
+						if strings.HasPrefix(o.Key, e.Key+".") {
+							onlyIncl = false // parent and child: path collision rules are not judged here
+						}
+					}
+				}
+				// (documents without an _id — which no stored document is — are left out: an inclusion projection of such a
+				// document fails in mongokit.Project with "cannot put missing value at _id"; recorded as an observation)
+				if onlyIncl && hidesID && !malformed && bsonkit.Get(&doc, "_id") != bsonkit.Missing {
+					if !ok {
+						viols = append(viols, run.Violation{Property: "C14", What: "a valid inclusion projection with a hidden _id is rejected", Witness: "project-valid-rejected", Req: req, Detail: impl})
+					} else if d := doc; true {
+						if res, err := mongokit.Project(bsonkit.Clone(&d), &proj); err == nil && bsonkit.Get(res, "_id") != bsonkit.Missing {
+							viols = append(viols, run.Violation{Property: "C14", What: "_id: false did not hide the _id", Witness: "project-id-not-hidden", Req: req, Detail: impl})
+						}
+					}
+				}
+			}
 			// independent statements of the two operator overlays (single-operator projections on a top-level array)
 			if ok && !malformed && inDomain {
 				if v := overlayOracle(doc, proj); v != "" {
